@@ -1,5 +1,6 @@
 import ArroyProofs.IndexInvOps
 import ArroyProofs.Mutates
+import ArroyProofs.IndexInvPrepare
 /-! # C01 — every tree of a built index covers exactly the live items, each once
 
 `Forest c s roots items ts` (ArroyProofs/ForestDefs.lean): the store holds the trees `ts` at `roots`;
@@ -81,16 +82,23 @@ theorem C01_inv_clear {c c' : Cfg} {s : Store} (hinv : IndexInv c s) (hi' : c'.i
     IndexInv c (Writer.clear c' s) :=
   IndexInv_clear hinv hi'
 
+/-- the metric change keeps the invariant of every index (`hinv'`: the invariant of the changed index) -/
+theorem C01_inv_prepare {c c' : Cfg} {m' : Metric} {s s' : Store} (hinv : IndexInv c s) (hinv' : IndexInv c' s)
+    (hi' : c'.index < 65536) (h : Writer.prepareChangingDistance c' m' s = .ok s') : IndexInv c s' :=
+  IndexInv_prepare hinv hinv' hi' h
+
 /-! ## histories -/
 
 /-- one step of a history; `build` carries its options, the fuel of the re-split loop and the
-    oracle streams / poll counter / cancellation schedule (`env`; its `store` field is ignored) -/
+    oracle streams / poll counter / cancellation schedule (`env`; its `store` field is ignored);
+    `prepare c m'` is `Writer::prepare_changing_distance` on the index opened as `c`, towards metric `m'` -/
 inductive Op where
   | add (c : Cfg) (id : Nat) (vec : List Nat)
   | append (c : Cfg) (id : Nat) (vec : List Nat)
   | del (c : Cfg) (id : Nat)
   | clear (c : Cfg)
   | build (c : Cfg) (o : BuildOpts) (fuel : Nat) (env : BState)
+  | prepare (c : Cfg) (m' : Metric)
 
 def Op.wf : Op → Prop
   | .add c id _ => c.index < 65536 ∧ id < 4294967296
@@ -98,6 +106,7 @@ def Op.wf : Op → Prop
   | .del c id => c.index < 65536 ∧ id < 4294967296
   | .clear c => c.index < 65536
   | .build c o _ _ => c.index < 65536 ∧ 1 ≤ Build.cap c o ∧ o.nTrees ≠ some 0
+  | .prepare c _ => c.index < 65536
 
 /-- a failed operation changes nothing (a failed build is followed by an abort) -/
 def step (s : Store) : Op → Store
@@ -111,6 +120,9 @@ def step (s : Store) : Op → Store
   | .clear c => Writer.clear c s
   | .build c o fuel env => match Build.build c o fuel { env with store := s } with
     | .ok (_, st') => st'.store
+    | .error _ => s
+  | .prepare c m' => match Writer.prepareChangingDistance c m' s with
+    | .ok s' => s'
     | .error _ => s
 
 def run (ops : List Op) : Store := ops.foldl step []
@@ -146,6 +158,11 @@ theorem C01_inv_step (hfresh : FreshSupply) (s : Store) (op : Op) (hop : op.wf)
       by_cases he : c.index = c'.index
       · exact (b.inv hinv'.1.1 hinv'.1.2.1 hinv'.1.2.2.1 hi' hn).congr_index he
       · exact b.inv_other he (hinv c hi)
+  | prepare c' m' =>
+    simp only [step]
+    cases h : Writer.prepareChangingDistance c' m' s with
+    | ok s' => exact IndexInv_prepare (hinv c hi) (hinv c' hop) hop h
+    | error e => exact hinv c hi
 
 /-- the invariant of every index holds after every history -/
 theorem C01_history_inv (hfresh : FreshSupply) (ops : List Op) (hops : ∀ op ∈ ops, op.wf) :
@@ -183,23 +200,36 @@ theorem C01_history (hfresh : FreshSupply) (ops : List Op) (hops : ∀ op ∈ op
         (C01_history_inv hfresh ops hops c hwf.1) h
     exact ⟨roots, ts, h1, h2, h3, h4⟩
 
-/-- induction over histories for a property `P` of the store that concerns index `c` only:
-    `P` must survive the marked mutations (`Mutates`: item operations on any index, builds and clears
-    of other indexes), a clear of the index, and a successful build of the index (given everything
+/-- the invariant of every index along a history started in any state satisfying it -/
+theorem C01_inv_foldl (hfresh : FreshSupply) (ops : List Op) (hops : ∀ op ∈ ops, op.wf) :
+    ∀ s : Store, (∀ c : Cfg, c.index < 65536 → IndexInv c s) →
+      ∀ c : Cfg, c.index < 65536 → IndexInv c (ops.foldl step s) := by
+  induction ops with
+  | nil => intro s h; exact h
+  | cons op ops ih =>
+    intro s h
+    simp only [List.foldl_cons]
+    exact ih (fun op' h' => hops op' (List.mem_cons_of_mem _ h')) _
+      (C01_inv_step hfresh s op (hops op (by simp)) h)
+
+/-- induction over histories for a property `P` of the store that concerns index `c` only, from any
+    starting state `s0` satisfying the invariant of every index (e.g. a reachable state):
+    `P` must survive the marked mutations (`Mutates`: item operations on any index, builds, clears and
+    metric changes of other indexes), a clear of the index, a metric change of the index to another metric
+    (after which the index is `Unbuilt`), and a successful build of the index (given everything
     `C01_build_out` establishes about it). `Q` is a side condition on the operations of the history. -/
-theorem C01_history_induction (hfresh : FreshSupply) (c : Cfg) (hi : c.index < 65536) (P : Store → Prop)
+theorem C01_history_induction_from (hfresh : FreshSupply) (c : Cfg) (hi : c.index < 65536) (P : Store → Prop)
     (Q : Op → Prop)
-    (h0 : P [])
     (hmut : ∀ s s', IndexInv c s → IndexInv c s' → Mutates c s s' → P s → P s')
     (hclear : ∀ s c', IndexInv c s → c'.index = c.index → P s → P (Writer.clear c' s))
     (hbuild : ∀ s c' o fuel env st' roots0 items0 ts0 roots' ts', IndexInv c' s → c'.index = c.index →
       (Op.build c' o fuel env).wf → Q (.build c' o fuel env) → Old c' s roots0 items0 ts0 →
       BuildOut c' o s st'.store roots0 ts0 roots' ts' →
       Build.build c' o fuel { env with store := s } = .ok ((), st') → P s → P st'.store)
-    (ops : List Op) (hops : ∀ op ∈ ops, op.wf) (hQ : ∀ op ∈ ops, Q op) : P (run ops) := by
-  unfold run
-  suffices ∀ (s : Store), (∀ c : Cfg, c.index < 65536 → IndexInv c s) → P s → P (ops.foldl step s) from
-    this [] (fun c _ => C01_inv_empty c) h0
+    (hprepare : ∀ s c' m' s', IndexInv c s → IndexInv c s' → c'.index = c.index → m' ≠ c'.metric →
+      Q (.prepare c' m') → Writer.prepareChangingDistance c' m' s = .ok s' → Unbuilt c s' → P s → P s')
+    (ops : List Op) (hops : ∀ op ∈ ops, op.wf) (hQ : ∀ op ∈ ops, Q op) :
+    ∀ (s0 : Store), (∀ c : Cfg, c.index < 65536 → IndexInv c s0) → P s0 → P (ops.foldl step s0) := by
   induction ops with
   | nil => intro s _ h; exact h
   | cons op ops ih =>
@@ -240,5 +270,41 @@ theorem C01_history_induction (hfresh : FreshSupply) (c : Cfg) (hi : c.index < 6
         by_cases he : c'.index = c.index
         · exact hbuild s c' o fuel env st' roots0 items0 ts0 roots' ts' hinv' he hop (hQ _ (by simp)) old b h hP
         · exact hmut s _ hc hnext (Mutates.build_other b (fun e => he e.symm)) hP
+    | prepare c' m' =>
+      simp only [step] at hnext ⊢
+      cases h : Writer.prepareChangingDistance c' m' s with
+      | error e => exact hP
+      | ok s' =>
+        rw [h] at hnext
+        have hinv' := hinv c' hop
+        by_cases he : c'.index = c.index
+        · by_cases hne : m' = c'.metric
+          · subst hne
+            rw [C18.C18_same] at h
+            cases h; exact hP
+          · exact hprepare s c' m' s' hc hnext he hne (hQ _ (by simp)) h
+              (prepare_unbuilt hne hc.1.2.1 hc.1.1 hop hinv'.1.2.2.1 he.symm h).1 hP
+        · exact hmut s s' hc hnext
+            (Mutates.prepare_other hc.1.2.1 hc.1.1 hop hinv'.1.2.2.1 h (fun e => he e.symm)) hP
+
+/-- induction over histories for a property `P` of the store that concerns index `c` only:
+    `P` must survive the marked mutations (`Mutates`: item operations on any index, builds, clears and
+    metric changes of other indexes), a clear of the index, a metric change of the index to another metric
+    (after which the index is `Unbuilt`), and a successful build of the index (given everything
+    `C01_build_out` establishes about it). `Q` is a side condition on the operations of the history. -/
+theorem C01_history_induction (hfresh : FreshSupply) (c : Cfg) (hi : c.index < 65536) (P : Store → Prop)
+    (Q : Op → Prop)
+    (h0 : P [])
+    (hmut : ∀ s s', IndexInv c s → IndexInv c s' → Mutates c s s' → P s → P s')
+    (hclear : ∀ s c', IndexInv c s → c'.index = c.index → P s → P (Writer.clear c' s))
+    (hbuild : ∀ s c' o fuel env st' roots0 items0 ts0 roots' ts', IndexInv c' s → c'.index = c.index →
+      (Op.build c' o fuel env).wf → Q (.build c' o fuel env) → Old c' s roots0 items0 ts0 →
+      BuildOut c' o s st'.store roots0 ts0 roots' ts' →
+      Build.build c' o fuel { env with store := s } = .ok ((), st') → P s → P st'.store)
+    (hprepare : ∀ s c' m' s', IndexInv c s → IndexInv c s' → c'.index = c.index → m' ≠ c'.metric →
+      Q (.prepare c' m') → Writer.prepareChangingDistance c' m' s = .ok s' → Unbuilt c s' → P s → P s')
+    (ops : List Op) (hops : ∀ op ∈ ops, op.wf) (hQ : ∀ op ∈ ops, Q op) : P (run ops) :=
+  C01_history_induction_from hfresh c hi P Q hmut hclear hbuild hprepare ops hops hQ []
+    (fun c _ => C01_inv_empty c) h0
 
 end Arroy.C01
